@@ -239,9 +239,14 @@ def replay (j : Json) : R Verdict := do
       -- sample-size results and its summary is the mean the implementation computed (`acc: [x, mean]`)
       for e in evs do
         match e with
-        | .complete sd (.acc _ m) =>
+        | .complete sd (.acc x m) =>
           match items.find? (fun (_, isd, _) => isd == sd) with
-          | some (iid, _, _) =>
+          | some (iid, _, ival) =>
+            -- the record the controller made of this evaluation: a finite result is never turned into a rejection
+            -- (a lost result: the best-seen is no longer a minimum over all accepted evaluations), nor changed
+            match ival with
+            | none => pf := ("C02", s!"evaluation with seed {sd} returned the finite value with order code {x} and was recorded as REJECTED: an accepted result was lost") :: pf
+            | some y => if y != x then pf := ("C02", s!"evaluation with seed {sd} returned the value with order code {x}, the record says {y}") :: ("C14", s!"evaluation with seed {sd} returned the value with order code {x}, the record says {y}") :: pf
             let cnt := (accCount.find? (·.1 == iid)).map (·.2.1) |>.getD 0
             accCount := (iid, cnt + 1, m) :: accCount.filter (·.1 != iid)
             if cnt + 1 == ss then
@@ -337,8 +342,8 @@ def replay (j : Json) : R Verdict := do
     if ss ≥ 1 && ids.count st.id > ss then
       pf := ("C08", s!"individual {st.id} was evaluated {ids.count st.id} times, sample size {ss}") :: pf
   match allStarts.head?, initV with
-  | some st, some v0 => if st.seed != 0 || st.id != 0 || st.v != v0 then
-      pf := ("C08", s!"first evaluation is (seed {st.seed}, id {st.id}, {st.v}), expected the initial value {v0}") :: pf
+  | some st, some v0 => if st.v != v0 then
+      pf := ("C08", s!"the first individual of the run is {st.v}, expected the initial value {v0}") :: pf
   | _, _ => pure ()
   -- C11: a rejected guess must not lead to any evaluation
   if initV.isNone && !allStarts.isEmpty then pf := ("C11", "evaluation started although the initial guess was rejected") :: pf
@@ -353,5 +358,25 @@ def replay (j : Json) : R Verdict := do
   return { case, kind, props := (pf.map (·.1)).eraseDups, what, tags := r.tags, size := r.nEvents,
            dis := (match r.verdict with | some ("DISAGREE", w) => w | _ => ""),
            fails := pf.map (fun (p, w) => p ++ ": " ++ w) }
+
+/-- one long run (hundreds of thousands of evaluations): the facts about seeds and ids gathered by the harness -/
+def replayLong (j : Json) : R Verdict := do
+  let case ← asNat (fieldD j "case")
+  let n ← asNat (← field j "n")
+  let want := (fieldD (fieldD j "cfg") "longEvals").getNat?.toOption.getD 0
+  let mut pf : List (String × String) := []
+  let d := fieldD j "dupSeed"
+  if !d.isNull then
+    pf := ("C08", s!"two evaluations of one run received the same seed: (seed, first evaluation, second evaluation) = {d.compress} in a run of {n} evaluations") :: pf
+  if !(fieldD j "idTwoValues").isNull then
+    pf := ("C08", s!"individual {(fieldD j "idTwoValues").compress} was evaluated with two different parameter sets (run of {n} evaluations)") :: pf
+  if !(fieldD j "overSampled").isNull then
+    pf := ("C08", s!"(individual, evaluations) = {(fieldD j "overSampled").compress}: evaluated more often than the sample size (run of {n} evaluations)") :: pf
+  if n > want then pf := ("C03", s!"{n} evaluations started, budget {want}") :: pf
+  let dis := if (fieldD (fieldD j "ret") "ok").isNull then s!"a long run with a budget of {want} evaluations ended with {(fieldD j "ret").compress}"
+             else if n != want then s!"a long run with a budget of {want} started {n} evaluations" else ""
+  let kind := if !pf.isEmpty then "PROPFAIL" else if dis != "" then "DISAGREE" else "ok"
+  return { case, kind, props := (pf.map (·.1)).eraseDups, what := (pf.reverse.head?.map (·.2)).getD dis, tags := ["long-run"], size := n,
+           dis, fails := pf.reverse.map (fun (p, w) => p ++ ": " ++ w) }
 
 end Driver.CtlReplay
